@@ -114,6 +114,19 @@ CHECKS.update({
         design='DESIGN.md §4 C14', engine='c14'),
 })
 
+CHECKS.update({
+    'C15': dict(
+        technique='stateless DFS over all thread schedules with bounded preemptions (cooperative scheduler on the real FileCache at lock/file-operation granularity)',
+        text='Two to three real callers of FileCache.get / get_or_compute (own cache instances, one directory, one key; forced writers overlapping readers; a late caller that starts '
+             'after another has returned) run as real threads under a cooperative scheduler that owns every lock acquire/release, exists, open, read, truncating open, half-write, close, '
+             'unlink and compute step. ALL schedules with <= 2 (quick) / 3-4 (thorough) preemptions are executed; per schedule: every call returns a value some completed computation produced '
+             '(get may say NO_VALUE), nobody fails because of another\'s write, compute+save regions never overlap, the entry at quiescence is the last writer\'s complete value, a late '
+             'caller does not recompute unless a write overlapped it, no deadlock. The lock model is bound to the real FileLock (timeout=0 acquisition on every grant); a vacuity counter '
+             'requires schedules in which a reader really sits inside a write window; sampled schedules are replayed twice.',
+        note='Threads stand in for processes (no shared Python state between callers). Steps between two visible operations are atomic. Preemption bound, not full interleaving space.',
+        design='DESIGN.md §4 C15', engine='sched'),
+})
+
 PENDING_REASON = 'check not built yet in this round (planned per DESIGN.md §4; technique applies)'
 
 
@@ -157,6 +170,7 @@ def manifest():
 
 
 ENGINES = [
+    {'name': 'sched', 'path': 'tcv/sched.py', 'serves_properties': ['C15'], 'kind_free_text': 'cooperative thread scheduler with lock/file interposition and preemption-bounded stateless DFS'},
     {'name': 'worlds', 'path': 'tcv/worlds.py, tcv/families.py', 'serves_properties': ['C01', 'C04'], 'kind_free_text': 'generated pipelines/configs/contexts with provenance terms, invocation log, fault plan'},
     {'name': 'refmodel', 'path': 'tcv/refmodel.py', 'serves_properties': ['C01', 'C04'], 'kind_free_text': 'independent reference semantics: mounts, precedence, edges, terms, frozen 1.4.0 key'},
     {'name': 'histories', 'path': 'tcv/histories.py', 'serves_properties': ['C01', 'C04'], 'kind_free_text': 'explicit-state BFS over operation histories with replay on fresh stores and canonical-state merging'},
